@@ -53,30 +53,30 @@ type PathResult struct {
 
 // Explorer is the per-path symbolic state of one worker.
 type Explorer struct {
-	w        *Worker
-	tt       *TermTable
-	prefix   []decision
-	pos      int
-	trail    []decision
-	modelN   map[string]uint64 // model by variable name
-	vals     []uint64          // model by variable index (parallel to tt.vars)
-	cache    map[*Term]uint64
-	pending  strings.Builder
-	declared []bool
-	observe  []Obs
-	known    []string
-	reached  []string
-	inconcl  string
-	newItems []workItem
-	nForks   int
-	nAsserts int
-	concrete bool // init phase: no symbolic values allowed
-	panicMsg string
+	w         *Worker
+	tt        *TermTable
+	prefix    []decision
+	pos       int
+	trail     []decision
+	modelN    map[string]uint64 // model by variable name
+	vals      []uint64          // model by variable index (parallel to tt.vars)
+	cache     map[*Term]uint64
+	pending   strings.Builder
+	declared  []bool
+	observe   []Obs
+	known     []string
+	reached   []string
+	inconcl   string
+	newItems  []workItem
+	nForks    int
+	nAsserts  int
+	concrete  bool // init phase: no symbolic values allowed
+	panicMsg  string
 	budgetMsg string // set by verifBudgetFails: running out of steps is a violation
-	ds       *domState
-	nDom     int
-	arena    []uint64
-	arenaPos int
+	ds        *domState
+	nDom      int
+	arena     []uint64
+	arenaPos  int
 }
 
 func (ex *Explorer) reset(it workItem) {
@@ -491,29 +491,29 @@ type Config struct {
 }
 
 type Stats struct {
-	paths          int64
-	done           int64
-	assumeFailed   int64
-	violations     int64
-	truncated      int64
-	inconclusive   int64
-	unsupported    int64
-	errors         int64
-	forks          int64
-	asserts        int64
-	assertsProved  int64
-	assertsDomain  int64
-	steps          int64
-	queries        int64
-	solverTime     time.Duration
-	crossChecked   int64
-	crossDisagree  int64
-	crossUnknown   int64
-	evalMismatch   int64
-	maxSteps       int64
-	knownHits      map[string]int64
-	reached        map[string]int64
-	msgs           map[string]int64
+	paths         int64
+	done          int64
+	assumeFailed  int64
+	violations    int64
+	truncated     int64
+	inconclusive  int64
+	unsupported   int64
+	errors        int64
+	forks         int64
+	asserts       int64
+	assertsProved int64
+	assertsDomain int64
+	steps         int64
+	queries       int64
+	solverTime    time.Duration
+	crossChecked  int64
+	crossDisagree int64
+	crossUnknown  int64
+	evalMismatch  int64
+	maxSteps      int64
+	knownHits     map[string]int64
+	reached       map[string]int64
+	msgs          map[string]int64
 }
 
 type Worker struct {
